@@ -8,8 +8,8 @@ from mc import grids
 from mc.run import Stats
 
 ASSUME = [
-    "windows start 2025-01-06 (+00:00 or +08:13), spans 180 min / 1 d 37 min / 2 d; resolutions listed in coverage",
-    "instants are whole seconds; indices beyond 2^31 seconds are outside the grid",
+    "windows start 2025-01-06 (+00:00 or +08:13), spans 180 min / 1 d 37 min / 2 d; resolutions listed in coverage; plus windows across the daylight-saving switch of the PROCESS time zone (TZ=Europe/Berlin 2025-03-29, TZ=America/New_York 2025-11-01): the environment must not matter",
+    "instants are whole seconds; a 90-year window is probed at ~2000 indices and around 2^31 seconds (the far grid)",
     "for instants outside [start, end] only 'reject or clamp' is demanded (truncation toward zero in (start-L, start) is tolerated)",
     "collectIntervals reference: maximal runs over the table without its final sentinel slot, >= minimum, clipped to [s,e), empty dropped",
 ]
@@ -29,6 +29,7 @@ def run(ctx):
         sbc = grids.sb_configs(ctx.tier)
         res = pool.map("mc.grids:sb_grid", sbc, timeout=300, chunk=1)
         res += pool.map("mc.grids:ci_grid", ci_configs(ctx.tier), timeout=900, chunk=1)
+        res += pool.map("mc.grids:far_grid", [60, 15] if ctx.tier == "quick" else [60, 30, 15, 7], timeout=900, chunk=1)
         from mc.pool import die_on_harness_errors
         die_on_harness_errors(res)
         per_mode[mode] = res
@@ -69,8 +70,10 @@ def replay(path):
     p = json.load(open(path))
     cyext.install(p.get("mode", "rebuilt"))
     cfg = p["cfg"]
-    if len(cfg) == 3:
-        r = grids.sb_grid((cfg[0], tuple(cfg[1]), cfg[2]))
+    if isinstance(cfg, (int, float)):
+        r = grids.far_grid(cfg)
+    elif len(cfg) in (3, 4) and isinstance(cfg[1], (list, tuple)):
+        r = grids.sb_grid((cfg[0], tuple(cfg[1]), cfg[2]) + ((tuple(cfg[3]),) if len(cfg) == 4 else ()))
     else:
         r = grids.ci_grid(tuple(cfg))
     print(r["viol_counts"], r["viol"][:4])
